@@ -79,7 +79,6 @@ psTls13Psk_t *tls13NewPsk(const unsigned char *key,
     if (params != NULL)
     {
         psk->params = psMalloc(keys->pool, sizeof(psTls13SessionParams_t));
-        Memset(psk->params, 0x0, sizeof(psTls13SessionParams_t));
         if (psk->params == NULL)
         {
             psFree(psk->pskKey, keys->pool);
@@ -92,12 +91,29 @@ psTls13Psk_t *tls13NewPsk(const unsigned char *key,
         if (params->sni != NULL && params->sniLen > 0)
         {
             psk->params->sni = psMalloc(keys->pool, params->sniLen);
+            if (psk->params->sni == NULL)
+            {
+                psFree(psk->params, keys->pool);
+                psFree(psk->pskKey, keys->pool);
+                psFree(psk->pskId, keys->pool);
+                psFree(psk, keys->pool);
+                return NULL;
+            }
             Memcpy(psk->params->sni, params->sni, params->sniLen);
             psk->params->sniLen = params->sniLen;
         }
         if (params->alpn != NULL && params->alpnLen > 0)
         {
             psk->params->alpn = psMalloc(keys->pool, params->alpnLen);
+            if (psk->params->alpn == NULL)
+            {
+                psFree(psk->params->sni, keys->pool);
+                psFree(psk->params, keys->pool);
+                psFree(psk->pskKey, keys->pool);
+                psFree(psk->pskId, keys->pool);
+                psFree(psk, keys->pool);
+                return NULL;
+            }
             Memcpy(psk->params->alpn, params->alpn, params->alpnLen);
             psk->params->alpnLen = params->alpnLen;
         }
